@@ -510,7 +510,7 @@ class Interp:
                     return self._invoke(dc, m, o, [], {}, depth)
                 return BoundMethod(o, dc, m)
             if m is not None:
-                v = self.ctx.folder.eval(m, dc.module)
+                v = self.ctx.folder.eval(m, dc.module, dc)  # (evaluated in the class body's scope: `size = calcsize(_format)`)
                 if v is not UNKNOWN:
                     return v
                 v = self._class_attr_dynamic(ci, attr, depth)
@@ -519,6 +519,43 @@ class Interp:
                 raise _Unknown(f"class attribute {ci.name}.{attr} not foldable")
             raise AttributeError(attr)  # the class family does not provide it: what the interpreted code would raise
         raise _Unknown(f"attribute .{attr} has no witness value")
+
+    @staticmethod
+    def _bind_params(node, args, kwargs, ev_default):
+        """Bind positional and keyword arguments to the parameters of a plain function; None when they do not fit in a way followed here."""
+        a = node.args
+        params = [x.arg for x in a.posonlyargs + a.args]
+        kwonly = [x.arg for x in a.kwonlyargs]
+        env2 = {}
+        if len(args) > len(params):
+            if a.vararg is None:
+                raise TypeError("too many positional arguments")
+            env2[a.vararg.arg] = tuple(args[len(params):])
+            args = args[:len(params)]
+        elif a.vararg is not None:
+            env2[a.vararg.arg] = ()
+        env2.update(zip(params, args))
+        extra = {}
+        for k, v in kwargs.items():
+            if k in env2 and k in params:
+                raise TypeError(f"multiple values for argument {k}")
+            if k in params or k in kwonly:
+                env2[k] = v
+            else:
+                extra[k] = v
+        if a.kwarg is not None:
+            env2[a.kwarg.arg] = extra
+        elif extra:
+            raise TypeError("unexpected keyword argument")
+        for p_, d_ in zip(params[len(params) - len(a.defaults):], a.defaults):
+            if p_ not in env2:
+                env2[p_] = ev_default(d_)
+        for p_, d_ in zip(kwonly, a.kw_defaults):
+            if p_ not in env2 and d_ is not None:
+                env2[p_] = ev_default(d_)
+        if any(p_ not in env2 for p_ in params + kwonly):
+            raise TypeError("missing argument")
+        return env2
 
     def _invoke(self, dc, m, me, args, kwargs, depth):
         """Fold method m (defined in class dc) on the witness instance `me`."""
@@ -870,32 +907,19 @@ class Interp:
                 if fc is not None:
                     args, kwargs = self._call_args(e, env, depth)
                     return self._fold_factory(fi, fc, args, kwargs, depth)
-            if fi is not None and fi.module is not self.module and not e.keywords:
-                # a module-level helper of another module: interpret it in its own module
+            if fi is not None and not any(isinstance(a, ast.Starred) for a in e.args) and all(k.arg for k in e.keywords) \
+                    and not fi.node.decorator_list and (fi.module is not self.module or depth < self.max_depth):
+                # a module-level helper (of this module, or of another one: then interpreted in its own module)
                 args = [self.ev(a, env, depth) for a in e.args]
-                params = [a.arg for a in fi.node.args.args]
-                if len(args) <= len(params):
-                    env2 = dict(zip(params, args))
-                    defaults = fi.node.args.defaults
-                    other = Interp(self.ctx, fi.module, self.hook, self.max_depth, self.cls)
-                    for p_, d_ in zip(params[len(params) - len(defaults):], defaults):
-                        if p_ not in env2:
-                            env2[p_] = other.ev(d_, {}, depth)
-                    other.steps = self.steps
+                kwargs = {k.arg: self.ev(k.value, env, depth) for k in e.keywords}
+                if any(a is UNKNOWN for a in args) or any(a is UNKNOWN for a in kwargs.values()):
+                    raise _Unknown(f"argument of {fi.node.name} not foldable")
+                other = self if fi.module is self.module else Interp(self.ctx, fi.module, self.hook, self.max_depth, self.cls)
+                env2 = self._bind_params(fi.node, args, kwargs, lambda d_: other.ev(d_, {}, depth))
+                if env2 is not None:
+                    if other is not self:
+                        other.steps = self.steps
                     return other.call(fi.node, env2, depth + 1)
-            if fi is not None and depth < self.max_depth:
-                if fi is not None and not e.keywords:
-                    args = [self.ev(a, env, depth) for a in e.args]
-                    if any(a is UNKNOWN for a in args):
-                        raise _Unknown(f"argument of {e.func.id} not foldable")
-                    params = [a.arg for a in fi.node.args.args]
-                    if len(args) <= len(params):
-                        env2 = dict(zip(params, args))
-                        defaults = fi.node.args.defaults
-                        for p_, d_ in zip(params[len(params) - len(defaults):], defaults):
-                            if p_ not in env2:
-                                env2[p_] = self.ev(d_, {}, depth)
-                        return self.call(fi.node, env2, depth + 1)
         if isinstance(e, ast.Call) and isinstance(e.func, ast.Name) and e.func.id == "BytesIO" and len(e.args) <= 1 and "BytesIO" not in env:
             arg = self.ev(e.args[0], env, depth) if e.args else b""
             if isinstance(arg, (bytes, bytearray)):
@@ -1031,11 +1055,11 @@ class Interp:
                 return dict(out)
             return out if not isinstance(e, ast.SetComp) else set(out)
         if isinstance(e, ast.Call) and isinstance(e.func, ast.Attribute) and not e.keywords and e.func.attr in _PURE_METHODS:
-            recv_ = None
+            recv_ = unknown_ = object()
             try:
                 recv_ = self.ev(e.func.value, env, depth)
             except _Unknown:
-                recv_ = None
+                recv_ = unknown_  # (not None: an unknown receiver decides nothing)
             if (recv_ is None or isinstance(recv_, (int, float))) and not hasattr(recv_, e.func.attr):
                 raise AttributeError(e.func.attr)  # e.g. (7).lower(): what the interpreted code would raise
             if isinstance(recv_, (str, bytes, list, tuple, dict)) and not isinstance(recv_, bool):
@@ -1088,6 +1112,46 @@ class Interp:
             kw = {k.arg: self.ev(k.value, env, depth) for k in e.keywords if k.arg}
             if all(isinstance(a, (int, str, bytes, bytearray, list, tuple)) for a in args + list(kw.values())):
                 return getattr({"int": int, "bytes": bytes, "str": str, "dict": dict}[e.func.value.id], e.func.attr)(*args, **kw)
+            if e.func.attr == "fromkeys" and not kw and 1 <= len(args) <= 2 and isinstance(args[0], (list, tuple, range, dict, set, frozenset, str, bytes)):
+                # every key maps to the one value object, whatever it is
+                return dict.fromkeys(args[0], *args[1:])
+        if isinstance(e, ast.Call) and isinstance(e.func, ast.Name) and e.func.id == "dict" and "dict" not in env and e.keywords and len(e.args) <= 1 \
+                and not any(isinstance(a, ast.Starred) for a in e.args) and self.ctx.model.resolve(self.module.name, "dict") is None:
+            # dict(a=x, **more) / dict(mapping, a=x): the values are whatever the expressions give
+            d_ = {}
+            if e.args:
+                src_ = self.ev(e.args[0], env, depth)
+                if isinstance(src_, dict):
+                    d_.update(src_)
+                elif isinstance(src_, (list, tuple)):
+                    d_.update(dict(src_))
+                else:
+                    raise _Unknown("dict() of a value that is not a mapping or a list of pairs")
+            for k in e.keywords:
+                v_ = self.ev(k.value, env, depth)
+                if k.arg is None:
+                    if not isinstance(v_, dict):
+                        raise _Unknown("dict(**value) of a value that is not a mapping")
+                    d_.update(v_)
+                else:
+                    d_[k.arg] = v_
+            return d_
+        if isinstance(e, ast.Call) and (ast.unparse(e.func) in ("starmap", "itertools.starmap")) and "starmap" not in env and not e.keywords and len(e.args) == 2:
+            # starmap(f, rows): f(*row) row by row, each call evaluated like any other call
+            rows = self.ev(e.args[1], env, depth)
+            if isinstance(rows, (list, tuple, LazyGen)):
+                out = []
+                for row in list(rows):
+                    row = list(row)
+                    names = [f"__smap{i}" for i in range(len(row))]
+                    call = ast.Call(func=e.args[0], args=[ast.Name(id=n_, ctx=ast.Load()) for n_ in names], keywords=[])
+                    ast.copy_location(call, e)
+                    ast.fix_missing_locations(call)
+                    child = _ChildEnv(env)
+                    for n_, it_ in zip(names, row):
+                        dict.__setitem__(child, n_, it_)
+                    out.append(self.ev(call, child, depth))
+                return out
         if isinstance(e, ast.Call) and isinstance(e.func, ast.Name) and e.func.id in ("map", "filter") and e.func.id not in env and not e.keywords and len(e.args) >= 2:
             # map(f, xs, ...) / filter(f, xs): the call f(x) is evaluated element by element like any other call
             seqs = [self.ev(a, env, depth) for a in e.args[1:]]
@@ -1213,6 +1277,21 @@ class Interp:
                 else:
                     vals.append(self.ev(x, env, depth))
             return tuple(vals) if isinstance(e, ast.Tuple) else vals
+        if isinstance(e, ast.Name) and isinstance(e.ctx, ast.Load) and e.id not in env:
+            # a module-level constant the folder cannot give whole (e.g. a tuple with a factory-made member): its defining expression,
+            # assigned exactly once, is evaluated here in its own module (once per run)
+            sym = self.ctx.model.resolve(self.module.name, e.id)
+            if sym is not None and sym.kind == "assign" and len(sym.values) == 1 and sym.module in self.ctx.model.modules and depth < self.max_depth + 4:
+                cache = self.ctx.__dict__.setdefault("_module_consts", {})
+                k_ = id(sym.values[0])
+                if k_ not in cache:
+                    cache[k_] = None
+                    try:
+                        cache[k_] = ("ok", Interp(self.ctx, self.ctx.model.modules[sym.module], None, self.max_depth).ev(sym.values[0], {}, depth + 1))
+                    except _Unknown:
+                        cache[k_] = None
+                if cache[k_] is not None:
+                    return cache[k_][1]
         raise _Unknown(f"expression not foldable: {ast.unparse(e)[:80]}")
 
     def _exc_isa(self, name, parent):
@@ -1337,7 +1416,17 @@ class Interp:
             elif isinstance(st, ast.AugAssign):
                 cur = self.ev(ast.copy_location(_load(st.target), st), env, depth)
                 rhs = self.ev(st.value, env, depth)
-                v = self.ctx.folder.eval(ast.BinOp(left=ast.Name(id="__a", ctx=ast.Load()), op=st.op, right=ast.Name(id="__b", ctx=ast.Load())), self.module, env={"__a": cur, "__b": rhs})
+                if isinstance(cur, list) and isinstance(st.op, ast.Add) and isinstance(rhs, (list, tuple, LazyGen, str, bytes, dict, set, frozenset, range)):
+                    cur.extend(rhs)  # in place: every other name of the list sees it
+                    v = cur
+                elif isinstance(cur, bytearray) and isinstance(st.op, ast.Add) and isinstance(rhs, (bytes, bytearray)):
+                    cur.extend(rhs)
+                    v = cur
+                elif isinstance(cur, (set, dict)) and isinstance(st.op, ast.BitOr) and isinstance(rhs, type(cur)):
+                    cur.update(rhs)
+                    v = cur
+                else:
+                    v = self.ctx.folder.eval(ast.BinOp(left=ast.Name(id="__a", ctx=ast.Load()), op=st.op, right=ast.Name(id="__b", ctx=ast.Load())), self.module, env={"__a": cur, "__b": rhs})
                 if v is UNKNOWN:
                     raise _Unknown("augmented assignment not foldable")
                 self.store(st.target, v, env, depth)
